@@ -10,11 +10,11 @@ from tlcrun import OUT, MachineryError
 
 
 def _drive_chunk(args):
-    tag, idx, init, items = args
+    tag, idx, init, items, seed = args
     import drive  # imported in the worker so that PROV_SRC/pythonpath apply
     traces = []
     for tid, hist, frm in items:
-        traces.append(drive.run_behaviour(tid, init, hist, frm))
+        traces.append(drive.run_behaviour(tid, init, hist, frm, seed))
     path = os.path.join(OUT, tag, "shard%d.json" % idx)
     with open(path, "w") as f:
         json.dump({"traces": traces}, f, separators=(",", ":"))
@@ -23,7 +23,7 @@ def _drive_chunk(args):
     return path, nsteps, sample
 
 
-def replay_and_validate(tag, init, behaviours, shards=16, timeout=1800):
+def replay_and_validate(tag, init, behaviours, shards=16, timeout=1800, seed=0):
     """behaviours: list of (hist, from).  Returns dict with fails (each with
     the behaviour attached), dones, counts."""
     os.makedirs(os.path.join(OUT, tag), exist_ok=True)
@@ -34,7 +34,7 @@ def replay_and_validate(tag, init, behaviours, shards=16, timeout=1800):
     chunks = [items[i::n] for i in range(n)]
     t0 = time.time()
     with mp.Pool(min(n, os.cpu_count() or 1)) as pool:
-        outs = pool.map(_drive_chunk, [(tag, i, init, c) for i, c in enumerate(chunks)])
+        outs = pool.map(_drive_chunk, [(tag, i, init, c, seed) for i, c in enumerate(chunks)])
     t_drive = time.time() - t0
     files = [o[0] for o in outs]
     nsteps = sum(o[1] for o in outs)
